@@ -13,6 +13,16 @@ TEXT = {
    text='Every Eq/Ord/ContraMap/From/Monoid entry point is executed on all pairs (and all triples for transitivity) of a pool of boundary and seed-random ints and strings; the oracle is the Go operator or the wrapped function itself, and base instances log their arguments so argument order is observed. Exploration of the input space, exhaustive over the pool.',
    note='Trusts Go\'s ==, < on int/string. Pool size bounds what is seen (40 values quick, 90 thorough per sort).',
    ref='DESIGN.md §6 C17'),
+ 'C05': dict(
+   technique='environment-move scheduler in synctest bubbles (real goroutines, virtual time, quiescence) + list-function oracle, user-function call log, consumed-element count; Go race detector on',
+   text='Every sequential stage runs inside a testing/synctest bubble under scripts of environment moves: all interleavings of the producer program (sends, close) with the consumer programs for inputs of length 0-2 (quick) / 0-3 (thorough), capacities 0-2 and all Take n, then seed-random scripts (inputs <= 40, capacity <= 8, bursts). After send-rest/close/drain the received sequences must equal the list function, every channel must have closed, the user function must have been called exactly on the consumed elements in order, and Take must not remove more than n elements from its input. Exploration, exhaustive over environment scripts on the small bound; library-internal schedules are sampled.',
+   note='Trusts testing/synctest for quiescence and the list oracle in harness/envsched/stages.go. GOMAXPROCS varies per child process.',
+   ref='DESIGN.md §4, §6 C05'),
+ 'C06': dict(
+   technique='environment-move scheduler in synctest bubbles + online prefix/closed-early monitor at every quiescent point + goroutine census (runtime.Stack filtered to the bubble and golem frames) + synctest deadlock detection; Go race detector on',
+   text='All 14 stages and StdErr-wrapped variants: all interleavings of producer program(s), consumer receives, virtual-clock advances and one cancel for inputs of length 0-2 (quick) / 0-3 (thorough) and capacities 0-3, the same without cancel, and seed-random longer scripts with bursts, absent consumers and unclosed inputs. At every quiescent point what was delivered must be a prefix of the uncancelled result and nothing may have closed early; the completion end game requires all channels closed and no library goroutine left (pacer excepted); the cancellation end game (cancel, inputs closed, nobody receiving) requires the census to be empty within the stage\'s bound of virtual ticks and every channel to report closed when finally drained. A panic in a library goroutine kills the child and is attributed through the write-ahead log.',
+   note='Known finding F6 (Fold delivers a partial accumulator after cancel) is listed in known_findings.json. Emit\'s exit bound after cancel is 2*cap+2+#failing indices ticks (select may legally prefer a ready send).',
+   ref='DESIGN.md §4, §6 C06'),
  'C14': dict(
    technique='reference-model monitor: real combinators drained by the documented loop vs strict list interpreter of the same expression tree; per-node callback-argument log; logical step budget for runaway loops',
    text='All expression trees to depth 3 over a leaf/function alphabet plus seed-random trees to depth 7 are built from fresh leaves, drained and run through ForEach with a visitor failing at several positions; result, visited prefix, returned error, callback arguments and source slices are compared with a list interpreter. Exploration, exhaustive on the small bound.',
@@ -80,6 +90,7 @@ def main():
     print('MANIFEST.json: %d checks, %d not_applicable' % (len(checks), len(na)))
 
 ENGINE_TEXT = {
+ 'envsched': 'engine A: environment-move scheduler inside testing/synctest bubbles, online/offline monitors, goroutine census, race detector',
  'puremon': 'law monitors with Go operators as oracle',
  'itermon': 'expression-tree interpreter vs real iterator combinators',
  'ductmon': 'typed-program interpreter (generated instantiation table) vs AST reference model',
